@@ -37,7 +37,7 @@ def run(i):
         for l in r["violations"]:
             m = re.search(r"replay=replays/\S+?-(e2e|pyxform|lemma)", l)
             tgt = l.split("replay=")[1]
-            kinds.add("e2e-oracle" if "-e2e-" in tgt else ("native-contract" if tgt.rstrip().endswith("-native.json") else "deductive-obligation"))
+            kinds.add("runtime-monitor" if "-monitor-" in tgt else "e2e-oracle" if "-e2e-" in tgt else ("native-contract" if tgt.rstrip().endswith("-native.json") else "deductive-obligation"))
         r["detected_by"] = sorted(kinds)
         r["status"] = "caught" if c.returncode == 1 else ("missed" if c.returncode == 0 else f"checker-exit-{c.returncode}")
     except Exception as e:  # noqa: BLE001
